@@ -15,3 +15,8 @@ import (
 func VerifBuildProxyHandlerChain(m clusters.Manager, enableAccessLog bool) func(apiHandler http.Handler, c *genericapiserver.Config) http.Handler {
 	return buildProxyHandlerChainFunc(&proxyHandlerOptions{clusterManager: m, enableAccessLog: enableAccessLog})
 }
+
+// VerifBuildProxyHandlerChainWith is VerifBuildProxyHandlerChain with the observability options of the proxy server.
+func VerifBuildProxyHandlerChainWith(m clusters.Manager, enableAccessLog, enableProxyTracing bool) func(apiHandler http.Handler, c *genericapiserver.Config) http.Handler {
+	return buildProxyHandlerChainFunc(&proxyHandlerOptions{clusterManager: m, enableAccessLog: enableAccessLog, enableProxyTracing: enableProxyTracing})
+}
